@@ -687,3 +687,281 @@ def family_cover(ctx, cases, results, legal):
 
 def _squash(t):
     return re.sub(r'\s+', '', t).lower()
+
+
+# ============================================================================= C32: constant propagation and
+# code removal ---------------------------------------------------------------------------------------------
+def LG(b):
+    return {'k': 'log', 'v': bool(b)}
+
+
+class CPGen(LoopGen):
+    """General programs enriched with what constant propagation / dead-code elimination look for: variables
+    holding literal constants next to input-dependent ones, IFs whose condition is decidable (`.true.`,
+    `1 > 2`, a comparison of propagated constants) or not, constant array elements, loops with literal
+    bounds, SELECT CASE on a literal, unused locals and - for the `args` families - helper procedures with
+    unused dummy arguments (scalars and arrays, first / middle / last position, passed on to a callee that
+    does not use them either)."""
+
+    def __init__(self, rng, features=(), family='cp/base', unused=False):
+        super().__init__(rng, features, family=family, pragma='none', p_const=0.15, max_trip=3)
+        self.unused = unused
+
+    def cexpr(self):
+        rng = self.rng
+        r = rng.random()
+        a, b = N(rng.randint(0, 6)), N(rng.randint(1, 4))
+        if r < 0.35:
+            return a
+        if r < 0.5:
+            return op('sum', a, b)
+        if r < 0.6:
+            return op('prod', a, b)
+        if r < 0.7:
+            return op('quot', op('sum', a, N(5)), b)
+        if r < 0.85:
+            return op('sum', V(rng.choice(['k', 't1', 't2'])), b)
+        return op('sum', a, op('neg', b))
+
+    def dcond(self):
+        rng = self.rng
+        c = rng.choice([
+            LG(True), LG(False), cmp_('>', N(1), N(2)), cmp_('==', N(2), N(2)), cmp_('<=', N(3), N(3)),
+            cmp_('/=', N(1), N(1)), op('not', cmp_('>', N(1), N(2))), op('or', cmp_('<', N(3), N(2)), V('flag')),
+            op('and', cmp_('<', N(1), N(2)), V('flag')), op('and', LG(True), cmp_('>', V('n'), N(1))),
+            cmp_('>', op('sum', N(1), N(2)), N(2)), op('or', LG(True), V('flag')), op('and', LG(False), V('flag')),
+            cmp_('>', V('t1'), N(2)), cmp_('==', V('t2'), N(1)), cmp_('<', V('k'), op('sum', V('t2'), N(1))),
+            op('not', LG(False)), cmp_('>=', op('prod', N(2), N(2)), N(4)),
+        ])
+        return copy.deepcopy(c)
+
+    def const_stmt(self, d):
+        rng = self.rng
+        r = rng.random()
+        writable = [v for v in self.int_writable if v not in self.active_loops]
+        if r < 0.35:
+            return [assign(V(rng.choice(writable)), self.cexpr())]
+        if r < 0.5:
+            c = rng.randint(0, 4)
+            out = [assign(el('ia', N(c)), N(rng.randint(0, 9)))]
+            if rng.random() < 0.7:
+                out.append(assign(V(rng.choice(writable)), op('sum', el('ia', N(rng.choice([c, c, rng.randint(0, 4)]))), N(1))))
+            return out
+        if r < 0.6:
+            return [assign(V('y'), rng.choice([R(3, 2), R(1, 4), R(2)])),
+                    assign(V('x'), op('sum', op('prod', V('y'), R(2)), R(1, 2)))]
+        if r < 0.9 and d > 0:
+            n = rng.choice([1, 1, 2])
+            s = {'s': 'if', 'conds': [self.dcond() for _ in range(n)],
+                 'bodies': [self.block(d - 1, rng.randint(1, 2)) for _ in range(n)],
+                 'els': self.block(d - 1, 1) if rng.random() < 0.6 else []}
+            return [s]
+        if 'select' in self.f and d > 0:
+            cases, lo = [], 0
+            for _ in range(rng.randint(1, 3)):
+                hi = lo + rng.choice([0, 0, 1])
+                cases.append({'lo': lo, 'hi': hi, 'body': self.block(d - 1, 1)})
+                lo = hi + 1 + rng.choice([0, 1])
+            return [{'s': 'select', 'e': rng.choice([N(rng.randint(0, 4)), op('sum', N(1), N(rng.randint(0, 2)))]),
+                     'cases': cases, 'default': self.block(d - 1, 1) if rng.random() < 0.6 else []}]
+        return [assign(V(rng.choice(writable)), self.cexpr())]
+
+    def stmt(self, d):
+        if self.rng.random() < 0.4:
+            return self.const_stmt(d)
+        return super().stmt(d)
+
+    # ---- helpers with unused dummy arguments
+    def make_helpers(self):
+        if not self.unused:
+            return super().make_helpers()
+        rng = self.rng
+        hs = []
+        zin = lambda n: decl(n, 'int', 'in')
+        # h1(a, s, z1, r): z1 unused (middle)
+        b1 = [assign(V('r'), N(0)),
+              do_('q', N(0), N(4), [assign(el('a', V('q')), call('mod', op('sum', el('a', V('q')), V('s')), N(11))),
+                                    assign(V('r'), op('sum', V('r'), el('a', V('q'))))])]
+        u1 = unit('h1', ['a', 's', 'z1', 'r'], [decl('a', 'int', 'inout', [(0, 4)]), zin('s'), zin('z1'), decl('r', 'int', 'out'),
+                                                decl('q', 'int'), decl('u9', 'int'), decl('ub', 'int', dims=[(1, 2)])], b1)
+
+        def call1(g):
+            return [{'s': 'call', 'name': 'h1', 'args': [V('ia'), op('sum', g.int_expr(1, g.int_scalars_noarr), N(1)),
+                                                         g.int_expr(1, g.int_scalars_noarr), V(g.rng.choice(['t1', 't2', 'k']))]}]
+        hs.append({'unit': u1, 'mkcall': call1})
+        # h2(z0, p, q, za): z0 (first) and za (array, last) unused
+        u2 = unit('h2', ['z0', 'p', 'q', 'za'], [zin('z0'), decl('p', 'int', 'inout'), zin('q'), decl('za', 'int', 'in', [(0, 4)])],
+                  [assign(V('p'), call('mod', op('sum', op('prod', V('p'), N(2)), V('q')), N(23)))])
+
+        def call2(g):
+            tgt = V(g.rng.choice(['t1', 't2', 'k']))
+            others = [v for v in ['n', 'm', 't1', 't2', 'k'] if v != tgt['name']]
+            return [{'s': 'call', 'name': 'h2', 'args': [g.rng.choice([N(3), V('n'), op('sum', V('m'), N(1))]), tgt,
+                                                         op('sum', V(g.rng.choice(others)), N(1)), V('ia')]}]
+        hs.append({'unit': u2, 'mkcall': call2})
+        # h3(p, zb, q, zi): passes zb / zi on to h2's unused dummies only; zi is an unused INOUT scalar
+        u3 = unit('h3', ['p', 'zb', 'q', 'zi'], [decl('p', 'int', 'inout'), decl('zb', 'int', 'in', [(0, 4)]), zin('q'), decl('zi', 'int', 'inout')],
+                  [{'s': 'call', 'name': 'h2', 'args': [V('zi'), V('p'), op('sum', V('q'), N(2)), V('zb')]},
+                   assign(V('p'), call('mod', op('sum', V('p'), V('q')), N(19)))])
+
+        def call3(g):
+            tgt, other = g.rng.sample(['t1', 't2', 'k'], 2)
+            return [{'s': 'call', 'name': 'h3', 'args': [V(tgt), V('ia'), op('sum', V(g.rng.choice(['n', 'm'])), N(1)), V(other)]}]
+        hs.append({'unit': u3, 'mkcall': call3})
+        self.helpers = hs
+        return [h['unit'] for h in hs]
+
+    def make_functions(self):
+        if not self.unused:
+            return super().make_functions()
+        f1 = unit('f1', ['u', 'zu', 'v'], [decl('u', 'int', 'in'), decl('zu', 'int', 'in'), decl('v', 'int', 'in'), decl('res', 'int')],
+                  [assign(V('res'), call('mod', op('sum', op('prod', V('u'), N(3)), op('neg', V('v'))), N(7))),
+                   if_(cmp_('>', V('u'), V('v')), [assign(V('res'), op('sum', V('res'), N(1)))])],
+                  kind='function', result='res')
+        self.functions = [f1]
+        return [f1]
+
+    def program(self, nstmts=6, depth=2):
+        prog = super().program(nstmts, depth)
+        if self.unused:
+            k = prog['units'][0]
+            # unused locals (scalar, array, real) and a local array that IS used
+            k['decls'] += [decl('u1', 'int'), decl('ua', 'int', dims=[(1, 3)]), decl('ur', 'real'), decl('la', 'int', dims=[(0, 2)])]
+            k['body'] += [do_('w', N(0), N(2), [assign(el('la', V('w')), op('sum', V('w'), V('k')))]),
+                          assign(V('k'), call('mod', op('sum', el('la', N(1)), el('la', N(2))), N(17)))]
+        return prog
+
+
+C32_FAMILIES = {
+    # family: (mode, features, unused)
+    'cp/base': ('cp', ('twod',), False),
+    'cp/call': ('cp', ('twod', 'call', 'fcall'), False),
+    'cp/while': ('cp', ('twod', 'while'), False),
+    'cp/select': ('cp', ('twod', 'select'), False),
+    'cp/exitcycle': ('cp', ('twod', 'exitcycle'), False),
+    'cp/section': ('cp', ('twod', 'section'), False),
+    'cp/assoc': ('cp', ('twod', 'assoc'), False),
+    'cp-unroll/base': ('cp-unroll', ('twod',), False),
+    'cp-dce/base': ('cp-dce', ('twod',), False),
+    'dce/base': ('dce', ('twod', 'select', 'call', 'while'), False),
+    'vars-arrays/base': ('vars', ('twod', 'call', 'fcall', 'select'), True),      # remove_only_arrays=True
+    'vars-all/base': ('vars', ('twod', 'call', 'fcall', 'select'), True),         # remove_only_arrays=False
+    'args-manual/call': ('args-manual', ('twod', 'call', 'fcall'), True),
+    'args-sched/call': ('args-sched', ('twod', 'call', 'fcall'), True),
+    'all-sched-arrays/call': ('all-sched', ('twod', 'call', 'fcall'), True),
+    'all-sched-all/call': ('all-sched', ('twod', 'call', 'fcall'), True),
+}
+
+
+def gen_c32(rng, family):
+    mode, feats, unused = C32_FAMILIES[family]
+    g = CPGen(rng, feats, family=family, unused=unused)
+    prog = g.program(nstmts=rng.randint(4, 7), depth=2)
+    prog['meta'] = {'family': family, 'mode': mode, 'simplify': rng.choice([1, 1, 0]),
+                    'only_arrays': 1 if '-arrays' in family else 0}
+    prune_unreachable(prog)
+    return prog, g.inputs(prog, 3)
+
+
+def called_names(ss):
+    out = set()
+
+    def ex(e):
+        if isinstance(e, dict):
+            if e.get('k') == 'call':
+                out.add(e['f'])
+            for v in e.values():
+                ex(v)
+        elif isinstance(e, list):
+            for v in e:
+                ex(v)
+    for s in F._flat(ss):
+        if s['s'] == 'call':
+            out.add(s['name'])
+        ex({k: v for k, v in s.items() if k not in ('body', 'bodies', 'els', 'default', 'cases')})
+        for c in s.get('cases', []):
+            pass
+    return out
+
+
+def prune_unreachable(prog):
+    """Drop helper units the kernel cannot reach: a signature-changing transformation driven over the call
+    tree legitimately leaves procedures outside the tree alone."""
+    units = {u['name']: u for u in prog['units']}
+    reach, todo = set(), ['kernel']
+    while todo:
+        n = todo.pop()
+        if n in reach or n not in units:
+            continue
+        reach.add(n)
+        todo += list(called_names(units[n]['body']))
+    prog['units'] = [u for u in prog['units'] if u['name'] in reach]
+
+
+def _reverse_call_order(src):
+    """Routines of the file, callees before callers."""
+    from loki.ir import nodes as ir, FindNodes, FindInlineCalls
+    routines = {r.name.lower(): r for r in src.all_subroutines}
+    deps = {}
+    for name, r in routines.items():
+        called = {str(c.name).lower() for c in FindNodes(ir.CallStatement).visit(r.body)}
+        called |= {str(c.function).lower() for c in FindInlineCalls().visit(r.body)}
+        deps[name] = {c for c in called if c in routines and c != name}
+    order, done = [], set()
+    while len(order) < len(routines):
+        ready = sorted(n for n in routines if n not in done and deps[n] <= done)
+        if not ready:
+            raise MachineryError('recursive helper procedures')
+        for n in ready:
+            order.append(routines[n])
+            done.add(n)
+    return order
+
+
+def transform_c32(text, prog, workdir):
+    from loki import Sourcefile
+    from loki.transformations.constant_propagation import do_constant_propagation
+    from loki.transformations.remove_code import (
+        do_remove_dead_code, do_remove_unused_vars, do_remove_unused_dummy_args, do_remove_unused_call_args,
+        find_unused_dummy_args_and_vars, RemoveCodeTransformation)
+    meta = prog.get('meta') or {}
+    mode = meta.get('mode', 'cp')
+    if mode.endswith('-sched'):
+        from loki.batch import Scheduler, SchedulerConfig
+        os.makedirs(workdir, exist_ok=True)
+        with open(os.path.join(workdir, 'kmod.F90'), 'w') as fh:
+            fh.write(text)
+        config = SchedulerConfig.from_dict({
+            'default': {'role': 'kernel', 'expand': True, 'strict': False, 'enable_imports': True},
+            'routines': {'kernel': {'role': 'driver'}}})
+        sched = Scheduler(paths=[workdir], config=config, xmods=[workdir])
+        if mode == 'args-sched':
+            trafo = RemoveCodeTransformation(remove_unused_args=True)
+        else:
+            trafo = RemoveCodeTransformation(remove_dead_code=True, use_simplify=bool(meta.get('simplify', 1)),
+                                             remove_unused_args=True, remove_unused_vars=True,
+                                             remove_only_arrays=bool(meta.get('only_arrays', 0)))
+        sched.process(transformation=trafo)
+        item = next((it for it in sched.items if it.name.lower() == 'kmod#kernel'), None)
+        if item is None:
+            raise MachineryError(f'scheduler did not discover kmod#kernel: {[it.name for it in sched.items]}')
+        return [('kmod.f90', item.source.to_fortran())]
+    src = Sourcefile.from_source(text)
+    if mode == 'args-manual':
+        unused_map = {}
+        for routine in _reverse_call_order(src):
+            do_remove_unused_call_args(routine, unused_map)
+            if routine.name.lower() != 'kernel':
+                unused_args, _ = find_unused_dummy_args_and_vars(routine)
+                do_remove_unused_dummy_args(routine, unused_args)
+                # keyed AFTER the routine was changed: Subroutine hashes by content
+                unused_map[routine] = unused_args
+        return [('kmod.f90', src.to_fortran())]
+    for routine in src.all_subroutines:
+        if mode in ('cp', 'cp-unroll', 'cp-dce'):
+            do_constant_propagation(routine, unroll_loops=mode == 'cp-unroll')
+        if mode in ('dce', 'cp-dce'):
+            do_remove_dead_code(routine, use_simplify=bool(meta.get('simplify', 1)))
+        if mode == 'vars':
+            do_remove_unused_vars(routine, remove_only_arrays=bool(meta.get('only_arrays', 0)))
+    return [('kmod.f90', src.to_fortran())]
